@@ -15,7 +15,7 @@ ASSUMPTIONS = [
 ]
 
 HOOK_COMMITS = ["aa112f6"]
-FIX_COMMITS = ["536bdea", "2163003", "086d718", "eebbb00", "ae8746e", "813750d", "4dcfce1", "affca7a", "6634824", "7638f19", "8a1300b", "fe98d51"]
+FIX_COMMITS = ["536bdea", "2163003", "086d718", "eebbb00", "ae8746e", "813750d", "4dcfce1", "affca7a", "6634824", "7638f19", "8a1300b", "fe98d51", "caf36c4"]
 NOT_YET = {}
 
 CFG = {
@@ -46,6 +46,13 @@ CFG = {
         "level_note": "Trusted: Lean kernel, Mathlib, hand-written model validated by the correspondence run; rounding not analysed.",
         "files": ["src/geom2/curve2.rs", "src/geom3/curve3.rs", "src/common/points.rs"],
         "tol": {"*": 1e-9, "curve.resample": 1e-7},
+    },
+    "C06": {
+        "cases": {"quick": 480, "thorough": 48000},
+        "level_text": "Theorems (every ordered field) about the model: intersection_param is sound and unique and refuses exactly the near-parallel pairs; an edge hit lies on its edge; the engeom-written slab test never prunes a box the line meets (negative parameters and zero direction components included); the specification list is sorted; spanning ray iff two crossings. polyline_intersections (BVH traversal) is compared with the per-edge specification on every run; the private SIMD slab test is compared lane 0 with its scalar model through a hook.",
+        "level_note": "Trusted: Lean kernel, Mathlib, hand-written model validated by the correspondence run; parry QBVH box containment assumed (node boxes contain their children); rounding not analysed.",
+        "files": ["src/geom2/polyline2.rs", "src/geom2/line2.rs", "src/geom2/curve2.rs"],
+        "tol": {"*": 1e-9, "ray.intersections": 1e-7, "ray.param": 1e-6},
     },
     "C12": {
         "cases": {"quick": 1600, "thorough": 160000},
